@@ -1005,7 +1005,13 @@ fn parse_expr(
 
                 let function_arguments: Pair<Rule> = op.clone().into_inner().next().unwrap();
                 let function_arguments: Node = Node::new_with_user_data(function_arguments, Rc::clone(&user_data));
-                let function_arguments: FunctionArguments = Parser::function_arguments(function_arguments, function_type.parameters(), None)?;
+                // calling a class constructs it: `Self` in the parameter types of its constructor means THAT class,
+                // not the class whose method contains the call
+                let function_arguments: FunctionArguments = {
+                    let constructor_result = function_type.return_type();
+                    let constructed_class = if lhs_ty.is_class() { constructor_result.get_type().map(|x| x.as_ref()) } else { None };
+                    Parser::function_arguments(function_arguments, function_type.parameters(), constructed_class)?
+                };
 
                 Ok((Expr::Callable(CallableContents::Standard { lhs_raw: lhs, function: function_type.into_owned(), arguments: function_arguments }), Some(op)))
             },
